@@ -34,6 +34,8 @@ struct Inner {
     threads: BTreeMap<String, TInfo>,
     events: Vec<Ev>,
     ref_read: BTreeMap<String, bool>,
+    /// the locks in front of which an L_AcqR / L_AcqW point yields (the cache's own locks; not those of the acknowledgements)
+    lock_filter: HashSet<i64>,
 }
 
 pub struct Sched {
@@ -49,7 +51,7 @@ pub enum WaitError {
 impl Sched {
     pub fn new(yield_sites: Option<HashSet<String>>) -> Arc<Sched> {
         Arc::new(Sched {
-            inner: Mutex::new(Inner { controlled: true, yield_sites, threads: BTreeMap::new(), events: Vec::new(), ref_read: BTreeMap::new() }),
+            inner: Mutex::new(Inner { controlled: true, yield_sites, threads: BTreeMap::new(), events: Vec::new(), ref_read: BTreeMap::new(), lock_filter: HashSet::new() }),
             cv: Condvar::new(),
         })
     }
@@ -110,6 +112,10 @@ impl Sched {
         self.cv.notify_all();
     }
 
+    pub fn set_lock_filter(&self, locks: HashSet<i64>) {
+        self.inner.lock().unwrap().lock_filter = locks;
+    }
+
     pub fn is_controlled(&self) -> bool {
         self.inner.lock().unwrap().controlled
     }
@@ -128,6 +134,9 @@ impl Sink for Sched {
             if !sites.contains(site) {
                 return;
             }
+        }
+        if site.starts_with("L_Acq") && (guard.yield_sites.is_none() || !guard.lock_filter.contains(&arg)) {
+            return;
         }
         // get_ref keeps the shard guard of the store alive while it records the access: no yield inside a guard
         if site == "C_Get" {
